@@ -131,6 +131,21 @@ pub fn rungs() -> Vec<Rung> {
         f.push(fs(5, 1));
         Case { prior: vec![v9_tpl_packet(256, &f)], input: v9_packet(&V9Pkt::new(vec![V9Set::Data(256, distinct(nd, 1))])) }
     }));
+    // ---- n record-less data flowsets / sets (4 bytes each) under a WIDE cached template (1 000 fields): what a call
+    // returns may not carry a per-flowset cost proportional to the template
+    for (kind, name) in [(0usize, "v9-n-empty-data-flowsets-under-a-1000-field-template"), (1, "v9-n-empty-options-data-flowsets-under-a-1000-field-options-template"), (2, "ipfix-n-empty-data-sets-under-a-1000-field-template"), (3, "ipfix-n-empty-options-data-sets-under-a-1000-field-options-template")] {
+        v.push(rung(name, (65535 - 24) / 4, move |n| {
+            let f: Vec<FieldSpec> = (0..1000).map(|k| fs(1 + (k % 3) as u16, 4)).collect();
+            let prior = match kind {
+                0 => v9_tpl_packet(256, &f),
+                1 => v9_packet(&V9Pkt::new(vec![V9Set::OptTpl(vec![V9OptTpl { id: 256, scope: (0..500).map(|_| fs(1, 4)).collect(), opts: f[..500].to_vec() }], 0)])),
+                2 => ipfix_tpl_msg(256, &f),
+                _ => ipfix_message(&IpfixMsg::new(vec![IpfixSet::OptTpl(vec![IpfixOptTpl { id: 256, scope_count: 1, fields: f.clone() }], 0)])),
+            };
+            let input = if kind < 2 { v9_packet(&V9Pkt::new((0..n).map(|_| V9Set::Data(256, vec![])).collect())) } else { ipfix_message(&IpfixMsg::new((0..n).map(|_| IpfixSet::Data(256, vec![])).collect())) };
+            Case { prior: vec![prior], input }
+        }));
+    }
     // ---- under-declared fixed-width fields: nf IPv4 fields declared with length 0 (the decoder reads 4 bytes each
     // whatever the template says) + one 1-byte field: the declared record length (1) is far below the consumed one
     for ipfix in [false, true] {
